@@ -58,6 +58,9 @@ def gen_world(seed, wi):
         )
         if not gopts[-1]["pseudo"]:
             gopts[-1]["lfusion"] = gopts[-1]["rfusion"] = False
+    if wi % 3 == 2:
+        # family "between": gene A has an allele of two core variants none of which has an allele of its own
+        gopts[0].update(orphan_core="always", ambiguous=False, n_variants=8)
     # a third gene nobody sequenced: it must fail with a reported error
     gopts.append(dict(strand=rng.choice("+-"), gene_len=420, n_exons=2, n_variants=3,
                       n_major=1, pseudo=False, deletion=True))
@@ -72,8 +75,22 @@ def gen_world(seed, wi):
         for g in world["genes"][:2]:
             smp["genes"][g["name"]] = gen_units(rng, g)
         samples[smp["name"]] = smp
+    between = None
+    if wi % 3 == 2:
+        # ... and 40% of one of two reference copies of sample s1 show ONE of them: 20% of the reads, i.e.
+        # filtered out for a two-copy structure (threshold 25%) but not for three copies (16.7%), where the
+        # variant can only be a novel addition
+        g0 = world["genes"][0]
+        orphan = [a for a in g0["alleles"] if a["kind"] == "normal" and len(a["vars"]) == 2
+                  and all(g0["variants"][v]["func"] and g0["variants"][v]["kind"] == "snp"
+                          and sum(1 for b in g0["alleles"] if v in b["vars"]) == 1 for v in a["vars"])]
+        if orphan:
+            samples["s1"]["genes"][g0["name"]] = [
+                {"type": "normal", "allele": "1.001", "noise": [{"vid": orphan[0]["vars"][0], "frac": 0.42}]},
+                {"type": "normal", "allele": "1.001"}]
+            between = g0["name"]
     params = {"gap": rng.choice([0, 0, 0.1, 0.3]), "max_minor_solutions": rng.choice([1, 1, 1, 2])}
-    return {"world": world, "samples": samples, "params": params,
+    return {"world": world, "samples": samples, "params": params, "between": between,
             "build": "hg19" if rng.random() < 0.8 else "hg38"}
 
 
@@ -110,6 +127,7 @@ def gen_op(rng, w):
         op["gene"] = rng.choice(genes)
         op["perm_seed"] = rng.randint(0, 10**6)
         op["mode"] = rng.choice(["perm", "perm", "subset", "reverse"])
+        op["each_first"] = rng.random() < 0.5
     else:
         op["gene"] = rng.choice(genes)
     return op
@@ -145,6 +163,11 @@ def gen_plan(rng, tier, i, seed):
         hs_pool = hs_pool[:4] + hs_pool[base + 4 : base + 12]
     nops = rng.randint(2, 6)
     opl = [gen_op(rng, w) for _ in range(nops)]
+    if w.get("between"):
+        # the candidates of the "between" sample handed to the minor stage in another order / as a subset
+        opl[rng.randrange(nops)] = {"op": "minor_order", "sample": "s1", "gene": w["between"],
+                                    "perm_seed": rng.randint(0, 10**6),
+                                    "mode": rng.choice(["reverse", "perm", "perm", "subset"]), "each_first": True}
     # restarts: cut the op list into 1-3 segments
     nseg = rng.choice([1, 1, 2, 2, 3])
     cuts = sorted(rng.sample(range(1, nops), min(nseg - 1, nops - 1))) if nops > 1 else []
@@ -302,12 +325,20 @@ def judge(plan, outcome):
                         tie = len(sa) == len(sb) and all(abs(x - y) < 1e-3 for x, y in zip(sa, sb))
                         c = clause + (" (equal objective: tie resolved differently)" if tie
                                       else " (different objective)")
+                        if not tie and "companion" in clause:
+                            # pooling can only ADD considered variants (which must then be carried): with more
+                            # companions (want = all candidates) the candidate's objective cannot get smaller
+                            extra = dict(extra, more_companions="cost-more" if sum(sb) >= sum(sa) - 1e-6
+                                         else "cost-less")
                         vs.append(_v(c, candidate=key, got=a, want=b, scores=[sa, sb], **extra, **where))
 
                 # same process, same hash seed: only the candidate list differs
                 cmp(r["refinements"], r["natural"],
                     "minor refinement depends on companion candidates" if r["order_kind"] == "subset"
                     else "minor refinement depends on candidate order", order=r["order"])
+                # every candidate in front once (same set of candidates: pooling cannot explain a difference)
+                for order, refn in r.get("rotations", []):
+                    cmp(refn, r["natural"], "minor refinement depends on candidate order", order=order)
                 # same candidate list: only the environment (hash seed, history) differs
                 cmp(r["natural"], ref["natural"], "minor-stage result differs from a fresh run")
                 continue
@@ -359,6 +390,8 @@ def signature(v):
         sig["field"] = re.sub(r"/\d+", "/*", (d.get("path") or "").split(":")[0])
     if "op" in d:
         sig["op"] = d["op"]["op"]
+    if "more_companions" in d:
+        sig["more_companions"] = d["more_companions"]
     return sig
 
 
@@ -805,10 +838,15 @@ def _op(ctx, op):
             return out
 
         ref, nat = {}, {}
+        r["rotations"] = []
         if n:
             try:
                 nat = refine(list(range(n)))
                 ref = refine(order) if order != list(range(n)) else nat
+                if op.get("each_first") and n > 1:
+                    for j in range(1, n):
+                        o2 = [j] + [i for i in range(n) if i != j]
+                        r["rotations"].append([o2, refine(o2)])
             except Exception as ex:
                 r["exc"] = O.exc_info(ex)
         r["natural"] = nat
